@@ -428,3 +428,120 @@ func anySym(v value) bool {
 	}
 	return false
 }
+
+// sync/atomic: single goroutine, so every operation is its plain counterpart; stores go through the write
+// barriers like any other store (a cache kept in a sync.Map or an atomic counter on shared state is a store
+// to shared state). Typed by the function-name suffix.
+func init() { extraInstallers = append(extraInstallers, installAtomics) }
+
+var extraInstallers []func()
+
+func installAtomics() {
+	add := func(kind string, a, b value) value {
+		a, b = concretizeVal(a), concretizeVal(b)
+		switch kind {
+		case "Int32":
+			return a.(int32) + b.(int32)
+		case "Int64":
+			return a.(int64) + b.(int64)
+		case "Uint32":
+			return a.(uint32) + b.(uint32)
+		case "Uint64":
+			return a.(uint64) + b.(uint64)
+		case "Uintptr":
+			return a.(uintptr) + b.(uintptr)
+		}
+		panic("atomic add: " + kind)
+	}
+	bitop := func(kind string, and bool, a, b value) value {
+		a, b = concretizeVal(a), concretizeVal(b)
+		switch kind {
+		case "Int32":
+			if and {
+				return a.(int32) & b.(int32)
+			}
+			return a.(int32) | b.(int32)
+		case "Int64":
+			if and {
+				return a.(int64) & b.(int64)
+			}
+			return a.(int64) | b.(int64)
+		case "Uint32":
+			if and {
+				return a.(uint32) & b.(uint32)
+			}
+			return a.(uint32) | b.(uint32)
+		case "Uint64":
+			if and {
+				return a.(uint64) & b.(uint64)
+			}
+			return a.(uint64) | b.(uint64)
+		case "Uintptr":
+			if and {
+				return a.(uintptr) & b.(uintptr)
+			}
+			return a.(uintptr) | b.(uintptr)
+		}
+		panic("atomic bitop: " + kind)
+	}
+	for _, kind := range []string{"Int32", "Int64", "Uint32", "Uint64", "Uintptr", "Pointer"} {
+		kind := kind
+		externals["sync/atomic.Load"+kind] = func(fr *frame, args []value) value {
+			p := args[0].(*value)
+			if loadBarrierOn {
+				checkLoad(p)
+			}
+			return *p
+		}
+		externals["sync/atomic.Store"+kind] = func(fr *frame, args []value) value {
+			p := args[0].(*value)
+			checkStore(p)
+			*p = args[1]
+			return nil
+		}
+		externals["sync/atomic.Swap"+kind] = func(fr *frame, args []value) value {
+			p := args[0].(*value)
+			old := *p
+			checkStore(p)
+			*p = args[1]
+			return old
+		}
+		externals["sync/atomic.CompareAndSwap"+kind] = func(fr *frame, args []value) value {
+			p := args[0].(*value)
+			if concretizeVal(*p) == concretizeVal(args[1]) {
+				checkStore(p)
+				*p = args[2]
+				return true
+			}
+			return false
+		}
+		if kind != "Pointer" {
+			externals["sync/atomic.Add"+kind] = func(fr *frame, args []value) value {
+				p := args[0].(*value)
+				checkStore(p)
+				*p = add(kind, *p, args[1])
+				return *p
+			}
+			externals["sync/atomic.And"+kind] = func(fr *frame, args []value) value {
+				p := args[0].(*value)
+				old := *p
+				checkStore(p)
+				*p = bitop(kind, true, *p, args[1])
+				return old
+			}
+			externals["sync/atomic.Or"+kind] = func(fr *frame, args []value) value {
+				p := args[0].(*value)
+				old := *p
+				checkStore(p)
+				*p = bitop(kind, false, *p, args[1])
+				return old
+			}
+		}
+	}
+	nop := func(fr *frame, args []value) value { return nil }
+	externals["runtime.Gosched"] = nop
+	externals["sync.runtime_Semacquire"] = nop
+	externals["sync.runtime_Semrelease"] = nop
+	externals["sync.runtime_procPin"] = func(fr *frame, args []value) value { return 0 }
+	externals["sync.runtime_procUnpin"] = nop
+}
